@@ -57,6 +57,10 @@ def run(ctx: RunCtx) -> None:
             c.beh.cancel_raises = True
         if ch.chance(1, 6, f"c{i}.big"):
             c.beh.big = 1500
+        if m.kind == "exchange" and c.in_schema in ("reorder", "widen") and ch.choose(2, f"c{i}.insch2"):
+            c.in_schema = ["reorder_widen", "reorder_nonnull"][ch.choose(2, f"c{i}.insch3")]  # two coercible differences at once
+            if c.in_schema == "reorder_nonnull" and any(k == "nulls" for k, _, _ in c.inputs):
+                c.in_schema = "reorder_widen"  # one schema per stream: a non-nullable declaration cannot carry the null inputs
         calls.append(c)
     world = legs.install_world([svc], calls)
     try:
